@@ -41,6 +41,18 @@ def gen_case_i(seed, tier, index):
         from props import c11
         c = c11.gen_case(seed, tier)
         c["kind"] = "memory"
+        c["rtlil"] = False
+        if fl.random() < 0.5:
+            # domain resets at arbitrary instants (C04 quantifies over reset edges for every design, memories included)
+            steps = []
+            lv = {d["name"]: 0 for d in c["config"]["domains"]}
+            for st in c["steps"]:
+                steps.append(st)
+                if st["k"] == "ev" and fl.random() < 0.08:
+                    dn = fl.choice(sorted(lv))
+                    lv[dn] ^= 1
+                    steps.append({"k": "rst", "l": {dn: lv[dn]}})
+            c["steps"] = steps
         return c
     o = dict(OPTS)
     o["wrappers"] = cfg.random() < 0.5
@@ -274,6 +286,16 @@ def run_memory(case, res, stats):
                             if drv.level(ln):
                                 v |= 1 << b
                         D.set_inputs({"bus": v})
+                elif k == "rst":
+                    changes = {n + ".rst": lvl for n, lvl in st["l"].items() if n in lv}
+                    if changes:
+                        F["srst"] += 1
+                        drv.drive(changes)
+                        v = 0
+                        for b, ln in enumerate(top.lines):
+                            if drv.level(ln):
+                                v |= 1 << b
+                        D.set_inputs({"bus": v})
                 else:
                     continue        # testbench row accesses have no RTLIL counterpart
             except (rtlil_eval.Unreadable, rtlil_eval.CombLoop) as e:
@@ -299,7 +321,7 @@ def run_case(case):
     def go():
         if case.get("kind") == "memory":
             # row accesses are dropped: keep the two sides in step
-            c = dict(case, steps=[s for s in case["steps"] if s["k"] in ("set", "ev")])
+            c = dict(case, steps=[s for s in case["steps"] if s["k"] in ("set", "ev", "rst")])
             holder["pr"] = run_memory(c, res, stats)
         else:
             holder["pr"] = run_prog(case, res, stats)
